@@ -76,7 +76,7 @@ CHECKS = [
          ref="4/C18"),
     dict(id="C19", engine="cluster-scenario", technique="TLC exhaustive on ClusterAgent.tla (activation mode: all arrival orders of the notifications of each operation) + B-scenario replay on an in-memory multi-node cluster of real engines and agents",
          text="Operations activate / deactivate / cluster-spawn / join / leave are issued at quiescence on 2..3 nodes with different kind sets and scripted select functions; TLC explores every interleaving of the resulting agent-to-agent deliveries (FIFO per link) and checks agreement of all members at quiescence with what is alive, uniqueness of an id across the cluster and placement on a capable member; an edge cover of the graph is replayed on real engines / agents connected by a capturing Remoter, and after every step Members, HasKind, GetActiveByID, Registry.GetPID and the cluster events of every member are compared with TLC's state, as is the value Activate returned. Regression configs (no purge on leave, no topology to a joiner, no duplicate check) must fail in TLC.",
-         note="quiescent histories only (as the property states); the copy of a broadcast an agent sends to itself is handled within the operation; a node that left does not rejoin; the ActivationRequest round trip is atomic (the agent blocks on it)",
+         note="quiescent histories only (as the property states); the copy of a broadcast an agent sends to itself is handled within the operation; a node that left does not rejoin; the ActivationRequest round trip is atomic (the agent blocks on it); 2-3 real members, <= 2 ids per kind, plus one instance in which the model id `bulk` stands for a block of 1100 actors (large topology at a join)",
          ref="4/C19"),
     dict(id="C20", engine="cluster-scenario", technique="TLC exhaustive on Provider.tla + B-scenario: an edge cover over the full input alphabet and every input sequence of length 4..5 over a small alphabet, driven into a real SelfManaged provider next to a real agent",
          text="Provider.tla models SelfManaged.Receive (Handshake: add, answer with the complete list, report; Members: add all, report; unreachable: remove exactly the member with that host, report, an unknown address changes nothing, the provider keeps running); TLC checks the action property and the invariants and its state graph is replayed on a real provider actor (real Started: event child, event-stream subscription, mDNS announcer) whose unreachable reports are real RemoteUnreachableEvent broadcasts; after every input the provider's member list (observed as the answer to a handshake), the agent's Members() and the absence of an ActorRestartedEvent for the provider are compared with TLC's state. The regression config with the nil dereference must fail in TLC.",
